@@ -108,6 +108,7 @@ type c08Sys struct {
 	last   string
 	descs  map[*corev1.Pod]string
 	res    *mc.Result
+	sink   string // set by Invariants when a rare-event finding is established in this state
 }
 
 func c08NewSys(cfg *c08Cfg, res *mc.Result) *c08Sys {
@@ -429,6 +430,7 @@ func (s *c08Sys) viol(clause, q, what string) mc.Violation {
 	key := "C08|hist|" + clause + "|" + q
 	if t := s.tag(); t != "plain" {
 		key = "C08|hist|rare-event|" + t
+		s.sink = t
 	}
 	return mc.Violation{Key: key, What: fmt.Sprintf("[%s] after %s: %s (%s)", s.cfg.name, s.last, what, clause)}
 }
@@ -449,6 +451,7 @@ func (s *c08Sys) get(c *podAssignCache, node string, q c08Query) (c08Vec, bool, 
 
 func (s *c08Sys) Invariants() []mc.Violation {
 	var viol []mc.Violation
+	s.sink = ""
 	cnt := map[string]int64{}
 	defer func() {
 		for k, v := range cnt {
@@ -493,6 +496,9 @@ func (s *c08Sys) Invariants() []mc.Violation {
 					"node %s query %s: incrementally kept estimate %v (present=%v) but a fresh cache fed the current metric %s and the assigned pods %s reports %v (present=%v) [cpu milli, memory bytes]",
 					node, q.Name, got, gok, c08MetricDesc(mr), c08AssignedDesc(as), want, wok)))
 			}
+			if s.sink != "" {
+				return viol[:1] // one report per transition into a rare-event finding
+			}
 			if !gok {
 				cnt["state_query_no_metric"]++
 				continue
@@ -511,6 +517,9 @@ func (s *c08Sys) Invariants() []mc.Violation {
 				viol = append(viol, s.viol("above-reference", q.Name, fmt.Sprintf(
 					"node %s query %s: estimate %v is above the highest value the statement admits %v (band %v..%v; metric %s; assigned %s)",
 					node, q.Name, got, hi, lo, hi, c08MetricDesc(mr), c08AssignedDesc(as))))
+			}
+			if s.sink != "" {
+				return viol[:1]
 			}
 			if len(as) > 0 {
 				cnt["judged_"+q.Name+"_with_pods"]++
@@ -567,6 +576,11 @@ func c08AssignedDesc(as []c08Assigned) string {
 // by their description) + the reference ledger + the clock. Absolute times are offsets from a fixed base and only
 // advance through tick(), so they are bounded by the depth.
 func (s *c08Sys) Key() string {
+	if s.sink != "" {
+		// a rare-event finding is established: all such states are merged into one sink per class, i.e. the search
+		// does not continue behind them (every transition INTO such a state is still judged and reported)
+		return "SINK|" + s.sink
+	}
 	var sb strings.Builder
 	vz := s.cache.vectorizer
 	for _, node := range s.cfg.nodes {
@@ -701,18 +715,16 @@ func c08Configs(env *mc.Env) []*c08Cfg {
 	}
 	th := env.Thorough()
 	// one node, default arguments
-	pods := "xz"
-	if th {
-		pods = "xyz"
-	}
+	pods := "xyz"
+	_ = th
 	add(&c08Cfg{name: "1node-" + pods, args: c08Args(0, false, false), nodes: []string{"n1"}, kinds: pick(c08Kinds(false), pods),
 		metrics: map[string][]*c08MetricVar{"n1": m1}, depth: [2]int{5, 6}})
 	// estimation window + custom estimation annotations + system usage counted for prod
 	add(&c08Cfg{name: "1node-window-xy", args: c08Args(90, true, true), nodes: []string{"n1"}, kinds: pick(c08Kinds(true), "xy"),
-		metrics: map[string][]*c08MetricVar{"n1": {m1[1], m1[2], m1[3]}}, depth: [2]int{5, 6}})
+		metrics: map[string][]*c08MetricVar{"n1": {m1[1], m1[2], m1[3]}}, depth: [2]int{5, 7}})
 	// two nodes: nodeName changes, binding to another node than the assumed one
 	add(&c08Cfg{name: "2nodes-xz", args: c08Args(0, false, false), nodes: []string{"n1", "n2"}, kinds: pick(c08Kinds(false), "xz"),
-		metrics: map[string][]*c08MetricVar{"n1": {m1[1], m1[3]}, "n2": m2}, depth: [2]int{4, 6}})
+		metrics: map[string][]*c08MetricVar{"n1": {m1[1], m1[3]}, "n2": m2}, depth: [2]int{5, 6}})
 	// rare but producible events, reported under their own keys (VERIF_C08_SKIP_RARE=1 leaves the part out, e.g. to
 	// look at mutants while its findings are not yet registered in known_findings.json)
 	if os.Getenv("VERIF_C08_SKIP_RARE") == "" {
@@ -722,17 +734,27 @@ func c08Configs(env *mc.Env) []*c08Cfg {
 	return cfgs
 }
 
-func TestVerifC08Hist(t *testing.T) {
-	env := mc.LoadEnv()
-	for _, cfg := range c08Configs(env) {
+// c08HistParts runs the BFS parts one after the other; each part gets its share of what is left of the time budget
+// (a slow machine caps the later parts instead of starving them).
+func c08HistParts(env *mc.Env) {
+	total := env.Budget
+	defer func() { env.Budget = total }()
+	cfgs := c08Configs(env)
+	for ci, cfg := range cfgs {
 		cfg := cfg
+		left := total - env.Elapsed()
+		if left < 0 {
+			left = 0
+		}
+		t0 := env.Elapsed()
+		env.Budget = t0 + left/time.Duration(len(cfgs)-ci)
 		res := mc.NewResult("C08", "hist-"+cfg.name, "bfs")
 		names := make([]string, len(cfg.ops))
 		for i, o := range cfg.ops {
 			names[i] = o.name
 		}
 		res.Rule = fmt.Sprintf("BFS over all event sequences of the %d-event alphabet %v on the real Plugin.Reserve/Unreserve, podAssignCache pod handlers and node-metric handlers; "+
-			"states deduplicated by the complete cache content + reference ledger + clock; every state judged per node for the queries %d the plugin can issue", len(cfg.ops), names, len(cfg.queries))
+			"states deduplicated by the complete cache content + reference ledger + clock; every state judged per node for the %d queries the plugin can issue", len(cfg.ops), names, len(cfg.queries))
 		res.Assumptions = []string{
 			"pods are known to the informer as pending before they are reserved; informer updates carry as old object the object delivered last; terminated/deleted is final per UID; Unreserve only follows a Reserve of the same pod and node",
 			"spec.nodeName changes of a bound pod and bindings to a node other than the assumed one are fed although the API server / a single scheduler would not produce them (the property's quantifier names node changes and the handler has a branch for them)",
@@ -742,15 +764,24 @@ func TestVerifC08Hist(t *testing.T) {
 		if cfg.rare {
 			res.Assumptions = append(res.Assumptions, "part "+cfg.name+": additionally metadata-only pod updates (priority-class label, custom estimation annotation; the koordinator webhook forbids the former) and an Unreserve that arrives after the informer already confirmed the binding (bind call failed client-side but succeeded server-side)")
 		}
+		repeats := env.Pick(0, 1)
 		b := &mc.BFS{Res: res, Env: env, New: func() mc.System { return c08NewSys(cfg, res) }, NumOps: len(cfg.ops),
-			OpName: func(i int) string { return cfg.ops[i].name }, MaxDepth: env.Pick(cfg.depth[0], cfg.depth[1]), Repeats: 0}
+			OpName: func(i int) string { return cfg.ops[i].name }, MaxDepth: env.Pick(cfg.depth[0], cfg.depth[1]), Repeats: repeats}
 		b.Run()
 		if res.Bounds == nil {
 			res.Bounds = map[string]any{}
 		}
 		res.Bounds["nodes"] = len(cfg.nodes)
 		res.Bounds["pods"] = len(cfg.kinds)
-		res.Bounds["map_order_repeats"] = 0
+		res.Bounds["map_order_repeats"] = repeats
+		res.WallS = (env.Elapsed() - t0).Seconds()
 		env.Emit(res)
 	}
+}
+
+// TestVerifC08 is the single entry point: the parts share one result file.
+func TestVerifC08(t *testing.T) {
+	env := mc.LoadEnv()
+	c08FilterParts(env)
+	c08HistParts(env)
 }
